@@ -3,12 +3,14 @@ package props
 import (
 	"encoding/json"
 	"encoding/xml"
+	"fmt"
 	"net/http/httptest"
 	"os"
 	"sort"
 	"strconv"
 	"strings"
 	"sync"
+	"sync/atomic"
 	"testing"
 
 	restful "github.com/emicklei/go-restful/v3"
@@ -85,7 +87,17 @@ type C05Case struct {
 	BadQPos int    `json:"bad_q_pos,omitempty"`
 	// TraceOffNil: trace logging is switched off with TraceLogger(nil) instead of EnableTracing(false)
 	TraceOffNil bool `json:"trace_off_nil,omitempty"`
+	// Late: Produces contains latePlaceholder, a type whose writer is registered only after the
+	// route was built (each evaluation uses a fresh, unique type name: the registry cannot forget)
+	Late bool `json:"late,omitempty"`
+	// Burst: the request is also sent by eight goroutines at once, several times, each time with
+	// an Accept value no request has carried before (an extra parameter that does not rank)
+	Burst bool `json:"burst,omitempty"`
 }
+
+const latePlaceholder = "application/vnd.late+json"
+
+var lateCounter, burstCounter int64
 
 func (r AccRange) qval() float64 {
 	if r.Q == "" {
@@ -191,6 +203,12 @@ func genC05(t *rapid.T) C05Case {
 		c.Produces = append(c.Produces[:pos], append([]string{u}, c.Produces[pos:]...)...)
 	}
 	hasUnreg := len(c.Produces) > n
+	if rapid.IntRange(0, 11).Draw(t, "late") == 0 {
+		c.Late = true
+		pos := rapid.IntRange(0, len(c.Produces)).Draw(t, "latepos")
+		c.Produces = append(c.Produces[:pos], append([]string{latePlaceholder}, c.Produces[pos:]...)...)
+	}
+	c.Burst = rapid.IntRange(0, 15).Draw(t, "burst") == 0
 	c.Default = rapid.SampledFrom([]string{"", "", restful.MIME_JSON, restful.MIME_XML}).Draw(t, "default")
 	if hasUnreg {
 		c.Default = ""
@@ -256,17 +274,34 @@ func checkC05(c C05Case) (vs []*Violation) {
 		st.Label("replay_skipped_other_registry", 1)
 		return nil
 	}
-	anyReg := false
+	lateType := ""
+	if c.Late {
+		lateType = "application/vnd.late" + strconv.FormatInt(atomic.AddInt64(&lateCounter, 1), 10) + "+json"
+		sub := func(m string) string { return strings.Replace(m, latePlaceholder, lateType, 1) }
+		c.Produces = append([]string{}, c.Produces...)
+		for i := range c.Produces {
+			c.Produces[i] = sub(c.Produces[i])
+		}
+		c.Accept = append([]AccRange{}, c.Accept...)
+		for i := range c.Accept {
+			c.Accept[i].Media = sub(c.Accept[i].Media)
+		}
+		c.BadQ = sub(c.BadQ)
+		isReg[lateType] = true
+		labels0 = append(labels0, "writer_registered_after_the_route_was_built")
+	}
+	anyReg, hasUnregType := false, false
 	for _, p := range c.Produces {
 		if isReg[p] {
 			anyReg = true
 		} else if p != unregisteredTypes[0] && p != unregisteredTypes[1] {
 			return []*Violation{viol("", "case uses %q which is not registered in this process (VERIF_REGISTRY=%s)", p, os.Getenv("VERIF_REGISTRY"))}
 		} else {
+			hasUnregType = true
 			labels0 = append(labels0, "produces_with_unregistered_type")
 		}
 	}
-	if !anyReg || (len(labels0) > 0 && c.Default != "") {
+	if !anyReg || (hasUnregType && c.Default != "") {
 		// produced types without a writer are an extension of the stated quantifier; they are
 		// only combined with an unset default content type, where the statement still decides
 		return nil
@@ -290,6 +325,9 @@ func checkC05(c C05Case) (vs []*Violation) {
 		}
 	}))
 	ct.Add(ws)
+	if lateType != "" {
+		restful.RegisterEntityAccessor(lateType, restful.NewEntityAccessorJSON(lateType))
+	}
 	switch c.Call {
 	case "WriteHeaderAndEntity":
 		wantStatus = 201
@@ -463,6 +501,46 @@ func checkC05(c C05Case) (vs []*Violation) {
 		for k := range all {
 			if !strings.HasSuffix(k, "panic=") && len(vs) == 0 {
 				vs = append(vs, viol("", "Produces=%v Accept=%q: writing the entity panicked: %s", c.Produces, h, k))
+			}
+		}
+	}
+	if c.Burst && len(vs) == 0 && len(c.Accept) > 0 && c.Call != "WriteServiceError" {
+		// the same request from several goroutines at once, with an Accept value nobody sent before
+		labels = append(labels, "burst_with_unseen_accept_value")
+		for b := 0; b < 12 && len(vs) == 0; b++ {
+			rs := append([]AccRange{}, c.Accept...)
+			rs[0].After = append(append([]string{}, rs[0].After...), "u="+strconv.FormatInt(atomic.AddInt64(&burstCounter, 1), 10))
+			h := renderAccept(rs, true)
+			start := make(chan struct{})
+			got := make([]string, 8)
+			var wg sync.WaitGroup
+			for g := range got {
+				wg.Add(1)
+				go func(g int) {
+					defer wg.Done()
+					hr := harness.NewHTTPRequest(model.ReqSpec{Method: "GET", Path: "/x", Headers: []model.H{{K: "Accept", V: h}}}, "burst")
+					w := httptest.NewRecorder()
+					<-start
+					func() {
+						defer func() {
+							if p := recover(); p != nil {
+								got[g] = "panic: " + fmt.Sprint(p)
+							}
+						}()
+						ct.Dispatch(w, hr)
+					}()
+					if got[g] == "" {
+						got[g] = strconv.Itoa(w.Code) + " " + strings.Join(w.Header()["Content-Type"], "|")
+					}
+				}(g)
+			}
+			close(start)
+			wg.Wait()
+			for _, a := range got {
+				if a != strconv.Itoa(wantStatus)+" "+want {
+					vs = append(vs, viol("", "Produces=%v Accept=%q sent by 8 goroutines at once: answers %v, every one must be %d %s", c.Produces, h, got, wantStatus, want))
+					break
+				}
 			}
 		}
 	}
